@@ -10,6 +10,8 @@ import OpyVerif.Model.Skel
 import OpyVerif.Model.Guards
 import OpyVerif.Model.Proto
 import OpyVerif.Model.Bench
+import OpyVerif.Model.Normalise
+import OpyVerif.Model.Onlooker
 import OpyVerif.Generated.ConstantsDefs
 import OpyVerif.Generated.SkeletonsDefs
 import OpyVerif.Generated.GuardsDefs
@@ -213,6 +215,16 @@ def step (d : DState) (line : String) : DState × String :=
     | some mu, some sd, some z => (d, showF (normalAffine mu sd z)) | _, _, _ => (d, "bad-op")
   | ["n.levy", beta, g1, g2] => match fOfBits beta, fOfBits g1, fOfBits g2 with
     | some b, some g1, some g2 => (d, showF (levyStep b g1 g2)) | _, _, _ => (d, "bad-op")
+  | ["n.gsamass", fits] => match parseFloats fits with
+    | some f => (d, showFs (gsaMass eps f)) | none => (d, "bad-op")
+  | ["n.wcaflow", nsr, n, fits] => match nsr.toNat?, n.toNat?, parseFloats fits with
+    | some nsr, some n, some f => (d, showFs ((List.range nsr).map (wcaFlowReal nsr n f))) | _, _, _ => (d, "bad-op")
+  | ["n.bharadius", b, c] => match fOfBits b, fOfBits c with
+    | some b, some c => (d, showF (bhaRadius b c)) | _, _ => (d, "bad-op")
+  | ["o.run", n, passes] => match n.toNat?, parsePos passes with
+    | some n, some ps =>
+      (d, match onlooker n 0 (ps.map (fun p => p.map (· != 0))) with | some k => toString k | none => "none")
+    | _, _ => (d, "bad-op")
   | ["b", name, xs] => match benchByName name, parseFloats xs with
     | some f, some xs => (d, showF (f xs)) | _, _ => (d, "bad-op")
   -- history
